@@ -10,8 +10,10 @@ import sys
 import time
 
 VERIF = "/verif"
-REPO = "/repo"
-WORK = os.path.join(VERIF, "work")
+# VERIF_REPO / VERIF_WORK are developer overrides (evaluating a seeded change in a scratch
+# worktree while /repo stays free); the registered checks never set them.
+REPO = os.environ.get("VERIF_REPO", "/repo")
+WORK = os.environ.get("VERIF_WORK", os.path.join(VERIF, "work"))
 REPLAY_DIR = os.path.join(VERIF, "replay")
 EVIDENCE_DIR = os.path.join(VERIF, "evidence")
 KNOWN_FINDINGS = os.path.join(VERIF, "known_findings.txt")
